@@ -293,6 +293,7 @@ def run(P, R, tier):
             R.ok("C06.balance", f["q"], "balanced on all %d CFG nodes" % len(cfg.nodes))
 
     ids_rule(P, R, "C06.ids")
+    filenames_rule(P, R)
 
     # ------------------------------------------------------------------ C06.nondet
     rn = R.rule("C06.nondet", "nondeterminism sources (clock, random, env, pid) only at the status/elapsed-time sites", minimum=3)
@@ -424,3 +425,48 @@ def ids_rule(P, R, RULE):
             R.violation(RULE, inst, "instance id assigned outside the constructor or not from InstancesIndex++",
                         file=f["file"], line=line, function=f["q"])
 
+
+
+def filenames_rule(P, R):
+    """"Instances do not influence each other's results": two instances in one directory write different default files because
+    every default output file name embeds the instance id (create_file_name / sel_file_name).  A file-name member may only be
+    written from such an id-derived default, from the parameter of its public Set...FileName method, or from a name the user's
+    own input gave (-file of DUMP / SELECTED_OUTPUT: Get_file_name()).  Anything else - e.g. the engine's own id-less default
+    handed down as a parameter - makes two instances share one file."""
+    R.rule("C06.filenames", "output file-name members are written only from id-derived defaults, their public setter's parameter, or a -file name from the input", minimum=10)
+    names = ("OutputFileName", "ErrorFileName", "LogFileName", "DumpFileName", "SelectedOutputFileNameMap")
+    n = 0
+    for key, f in sorted(P.functions.items()):
+        if not f["q"].startswith("IPhreeqc::"):
+            continue
+        for x in T.walk(f["body"]):
+            tgt = rhs = None
+            if x[0] == "Bin" and x[2] == "=":
+                tgt, rhs = x[3], x[4]
+            elif x[0] == "Call" and T.callee_name(x) == "operator=" and len(x[4]) == 2:
+                tgt, rhs = x[4][0], x[4][1]
+            elif x[0] == "Call" and T.callee_name(x) == "operator=" and T.is_node(x[3]) and len(x[4]) == 1:
+                tgt, rhs = x[3], x[4][0]
+            if tgt is None:
+                continue
+            ms = [y[2].split("::")[-1] for y in T.walk(tgt) if y[0] == "Member"]
+            hit = [m for m in ms if m in names]
+            if not hit:
+                continue
+            n += 1
+            inst = "%s:%s@%d" % (f["q"].split("::")[-1], hit[0], x[1])
+            calls = [T.callee_name(c) for c in T.calls(rhs)] + ([T.callee_name(rhs)] if T.is_node(rhs) and rhs[0] == "Call" else [])
+            params = [y[3] for y in T.walk(rhs) if y[0] == "Ref" and y[2] == "param"]
+            setter = f["name"].startswith("Set") and f["name"].endswith("FileName")
+            bad_params = [p_ for p_ in params if not setter and p_ in f["pnames"] and not p_.startswith("n")]     # user numbers (n_user) are keys, not names
+            if any(c in ("create_file_name", "sel_file_name") for c in calls) and not bad_params:
+                R.ok("C06.filenames", inst, "id-derived default")
+            elif setter and params and not [c for c in calls if c in ("Get_file_name",)]:
+                R.ok("C06.filenames", inst, "public setter parameter")
+            elif "Get_file_name" in calls and not bad_params:
+                R.ok("C06.filenames", inst, "-file name given by the input")
+            else:
+                R.violation("C06.filenames", inst, "`%s` is set from `%s`, which is neither an id-derived default (create_file_name / sel_file_name), the parameter of its public setter, nor a -file "
+                            "name from the input: two instances in one directory can end up writing the same file" % (hit[0], T.text(rhs)[:80]), file=f["file"], line=x[1], function=f["q"])
+    if n < 10:
+        R.anchor_missing("C06.filenames", "only %d writes of file-name members found" % n)
